@@ -344,12 +344,20 @@ func scenario(r *Rng, hist Hist) (*scenarioResult, error) {
 		cwg.Add(1)
 		go func(tr *Rng) {
 			defer cwg.Done()
+			made := 0
 			for {
 				select {
 				case <-clientQuit:
 					return
 				default:
 				}
+				// a bounded, paced stream of incoming connections (an unbounded one only
+				// measures how fast the pool can refuse connections)
+				if made >= 25 {
+					return
+				}
+				made++
+				time.Sleep(time.Duration(500+tr.Intn(3000)) * time.Microsecond)
 				c, err := net.DialTimeout("tcp", poolAddr, 100*time.Millisecond)
 				if err != nil {
 					time.Sleep(time.Millisecond)
@@ -523,11 +531,11 @@ func scenario(r *Rng, hist Hist) (*scenarioResult, error) {
 }
 
 func dumpStacks() string {
-	buf := make([]byte, 1<<20)
+	buf := make([]byte, 8<<20)
 	n := runtime.Stack(buf, true)
 	out := string(buf[:n])
-	if len(out) > 30000 {
-		out = out[:30000]
+	if len(out) > 3000000 {
+		out = out[:3000000]
 	}
 	return out
 }
@@ -555,6 +563,9 @@ func bucket(n int) string {
 func run(args []string) error {
 	f := ParseFlags("c32", args)
 	logging.Disable()
+	if lvl, err := logging.LevelFromString("panic"); err == nil {
+		logging.SetLevel(lvl) // no formatting work, no contention on the logger's mutex
+	}
 	r := NewRng(f.Seed)
 	n := f.Budget(25, 300)
 	o := NewOut()
